@@ -212,8 +212,8 @@ for c in seqs.cases():
 
 # ---------------------------------------------------------------- lock discipline (variant lock)
 A_LOCK = "overlay: std::sync::RwLock replaced by an instrumented single-threaded lock that asserts no guard is live on acquisition and lets try_read/try_write fail nondeterministically; thread schedules are NOT explored"
-for n in ["c14_lookups", "c14_iter_root", "c14_iter_walk", "c14_iter_storage", "c14_stream_ops"]:
-    harness(n, props=["C14"], timeout=3000, mem=10, variant=("buf8" if n == "c14_stream_ops" else "lock"), fs=8192, stubs=[FMT, STUB_UP],
+for n in ["c14_lookups", "c14_iter_root", "c14_iter_walk", "c14_iter_storage", "c14_stream_rw", "c14_stream_setlen", "c14_stream_big_window"]:
+    harness(n, props=["C14"], timeout=3000, mem=10, variant=("buf8" if n.startswith("c14_stream") else "lock"), fs=8192, stubs=([FMT, "Stream :: minialloc"] if n.startswith("c14_stream") else [FMT, STUB_UP]),
             what="every read-only method, every iterator step (with read-only calls interleaved while the iterator is alive) and every stream operation acquires the lock only while no guard is live and releases it before returning",
             bounds="3-entry file; one call sequence; symbolic contents/metadata", functions=["CompoundFile::*(read-only)", "Entries::next", "Entries::new", "Stream::*"],
             assumes=[A_LOCK, A_SHAPE, A_UPTABLE])
@@ -357,7 +357,7 @@ QUICK.update({
     "C11": ["alloc_next_total", "chain_new_total"],
     "C12": ["stor_read_fault_seek0", "stor_read_fault_seek1", "stor_read_fault_read0", "stor_read_cross"] + [n for n in seqs.quick_faults() if "c12" in n],
     "C13": ["c13_free_fault_at0", "c13_free_fault_at2", "c13_free_fault_at4", "cache_c_write_flush_write_read_min"] + [n for n in seqs.quick_faults() if "c13" in n],
-    "C14": ["c14_lookups", "c14_iter_root", "c14_iter_walk", "c14_iter_storage", "c14_stream_ops"],
+    "C14": ["c14_lookups", "c14_iter_root", "c14_iter_walk", "c14_iter_storage", "c14_stream_rw", "c14_stream_setlen", "c14_stream_big_window"],
     "C15": ["alloc_begin_free13", "alloc_extend_free3", "alloc_free_chain3", "alloc_free_after3", "mini_begin_reuse",
             "mini_begin_after_empty", "mini_free_tail2", "mini_free_all", "dir_ins_n3_s0_g1", "big_4096_to_100"],
     "C16": ["dirent_parse_storage_v3", "dirent_parse_stream_v3", "dirent_parse_root_v3", "dirent_parse_badtype_v3",
